@@ -12,10 +12,12 @@ package api //nolint:revive
 //                  named like passwords (scope g = config/global/get, p = path objects)
 //         TyConf = reflection type tree of conf.Conf (C11 encoding); writes = the places redactCredentials
 //                  assigns to, as step lists into that tree (k+1 = field k, 0 = element/pointee/map value)
-//   cfg <seed> U=<pass,…|-> D=<pp>/<rp> P=<name>:<pp>/<rp>,…|-
+//   cfg|cfgbig <seed> U=<pass,…|-> D=<pp>/<rp> P=<name>:<pp>/<rp>,…|- Q=<itemsPerPage.page,…>
+//         (cfgbig: more than 100 paths; Q = the paginated config/paths/list requests to make:
+//          itemsPerPage ∈ {1,2,3,100} × page ∈ {0,1,2,last,last+1})
 //         configuration #seed built by the loader; the columns are its LIVE secrets (hex, `-` empty, `~` nil)
 //         answer: what the four GET handlers serve at the password positions + canary scan + purity
-//         "G=… D=… L=… P=… leaks=<n> pure=<0|1>"
+//         "G=… D=… L=… P=… Q=<ipp.page>=<items|->;… leaks=<n> pure=<0|1>"
 //   dump <wire|direct|directnc> <src> <reqline> <hostline> <k=v|v,…|-> <body> <secrets,…|->
 //         answer: hex of dumpRequest's output
 
@@ -255,7 +257,7 @@ func verifC07Fingerprint(c *conf.Conf) uint64 {
 
 // ---------- configurations ----------
 
-var verifC07PathNames = []string{"cam1", "cam2", "live/a", "~^x[0-9]+$", "all_others", "proxied"}
+var verifC07PathNames = []string{"cam1", "cam2", "live/a", "~^x[0-9]+$", "all_others", "proxied", "cam3", "rec/b", "z9", "lobby"}
 
 func verifC07Pass(r *verifutil.Rand, tag string) string {
 	switch r.Intn(6) {
@@ -269,9 +271,10 @@ func verifC07Pass(r *verifutil.Rand, tag string) string {
 	return "canary" + tag + fmt.Sprintf("%dz", r.Intn(1000000))
 }
 
-func verifC07Doc(r *verifutil.Rand) []byte {
+// big: more than 100 paths (more than one page at the default page size)
+func verifC07Doc(r *verifutil.Rand, big bool) []byte {
 	var glob, paths []string
-	legacy := r.Chance(1, 2) // legacy path credentials and authInternalUsers exclude each other
+	legacy := big || r.Chance(2, 3) // legacy path credentials and authInternalUsers exclude each other
 	if !legacy {
 		var us []string
 		for i, n := 0, r.Intn(4); i < n; i++ {
@@ -286,20 +289,37 @@ func verifC07Doc(r *verifutil.Rand) []byte {
 			glob = append(glob, `"authInternalUsers":[`+strings.Join(us, ",")+`]`)
 		}
 	}
-	used := map[string]bool{}
-	for i, n := 0, r.Intn(5); i < n; i++ {
-		nm := verifC07PathNames[r.Intn(len(verifC07PathNames))]
-		if used[nm] {
-			continue
+	var names []string
+	if big {
+		for i, n := 0, 101+r.Intn(30); i < n; i++ {
+			names = append(names, fmt.Sprintf("p%03d", i))
 		}
-		used[nm] = true
+	} else {
+		n := r.Intn(5)
+		if legacy {
+			n = 3 + r.Intn(5) // 3..7 paths carrying passwords
+		}
+		perm := append([]string(nil), verifC07PathNames...)
+		for i := 0; i < n; i++ {
+			k := i + r.Intn(len(perm)-i)
+			perm[i], perm[k] = perm[k], perm[i]
+			names = append(names, perm[i])
+		}
+	}
+	for i, nm := range names {
 		var kv []string
 		if legacy {
-			if r.Chance(2, 3) {
-				kv = append(kv, fmt.Sprintf(`"publishUser":"pub%d"`, i), fmt.Sprintf(`"publishPass":%q`, verifC07Pass(r, fmt.Sprintf("PP%d", i))))
+			if r.Chance(3, 4) {
+				if r.Chance(3, 4) {
+					kv = append(kv, fmt.Sprintf(`"publishUser":"pub%d"`, i))
+				}
+				kv = append(kv, fmt.Sprintf(`"publishPass":%q`, verifC07Pass(r, fmt.Sprintf("PP%d", i))))
 			}
-			if r.Chance(1, 2) {
-				kv = append(kv, fmt.Sprintf(`"readUser":"rd%d"`, i), fmt.Sprintf(`"readPass":%q`, verifC07Pass(r, fmt.Sprintf("RP%d", i))))
+			if r.Chance(3, 4) {
+				if r.Chance(1, 2) { // without readUser the migrated internal user is "any"
+					kv = append(kv, fmt.Sprintf(`"readUser":"rd%d"`, i))
+				}
+				kv = append(kv, fmt.Sprintf(`"readPass":%q`, verifC07Pass(r, fmt.Sprintf("RP%d", i))))
 			}
 		}
 		if r.Chance(1, 3) {
@@ -315,10 +335,10 @@ func verifC07Doc(r *verifutil.Rand) []byte {
 	return []byte("{" + strings.Join(glob, ",") + "}")
 }
 
-func verifC07Load(seed uint64) *conf.Conf {
+func verifC07Load(seed uint64, big bool) *conf.Conf {
 	r := verifutil.NewRand(seed)
 	for {
-		doc := verifC07Doc(r)
+		doc := verifC07Doc(r, big)
 		fp := filepath.Join(os.TempDir(), fmt.Sprintf("verif-c07-%d.yml", os.Getpid()))
 		if err := os.WriteFile(fp, doc, 0o600); err != nil {
 			panic(err)
@@ -329,6 +349,25 @@ func verifC07Load(seed uint64) *conf.Conf {
 			return c
 		}
 	}
+}
+
+// the paginated requests made against config/paths/list: itemsPerPage x {0,1,2,last,last+1}
+func verifC07Queries(n int) []string {
+	var out []string
+	for _, ipp := range []int{1, 2, 3, 100} {
+		last := 0
+		if n > 0 {
+			last = (n+ipp-1)/ipp - 1
+		}
+		seen := map[int]bool{}
+		for _, p := range []int{0, 1, 2, last, last + 1} {
+			if !seen[p] {
+				seen[p] = true
+				out = append(out, fmt.Sprintf("%d.%d", ipp, p))
+			}
+		}
+	}
+	return out
 }
 
 func verifC07Enc(s string) string { return verifutil.HexS(s) }
@@ -376,7 +415,8 @@ func verifC07Secrets(c *conf.Conf) (string, []string) {
 		}
 		return strings.Join(xs, ",")
 	}
-	cols := fmt.Sprintf("U=%s D=%s/%s P=%s", join(us), verifC07EncPtr(c.PathDefaults.PublishPass), verifC07EncPtr(c.PathDefaults.ReadPass), join(ps))
+	cols := fmt.Sprintf("U=%s D=%s/%s P=%s Q=%s", join(us), verifC07EncPtr(c.PathDefaults.PublishPass), verifC07EncPtr(c.PathDefaults.ReadPass), join(ps),
+		strings.Join(verifC07Queries(len(c.Paths)), ","))
 	return cols, all
 }
 
@@ -417,10 +457,10 @@ func verifC07Exec(op string) string {
 		}
 		return "ok"
 
-	case "cfg":
+	case "cfg", "cfgbig":
 		var seed uint64
 		fmt.Sscan(f[1], &seed)
-		c := verifC07Load(seed)
+		c := verifC07Load(seed, f[0] == "cfgbig")
 		cols, secrets := verifC07Secrets(c)
 		if cols != strings.Join(f[2:], " ") {
 			return "configuration-not-reproducible"
@@ -463,6 +503,34 @@ func verifC07Exec(op string) string {
 			ls = append(ls, verifutil.HexS(n)+":"+verifC07Field(it, "publishPass")+"/"+verifC07Field(it, "readPass"))
 		}
 
+		// every page shape of the paginating endpoint
+		var qs []string
+		for _, q := range verifC07Queries(len(c.Paths)) {
+			var ipp, page int
+			fmt.Sscanf(q, "%d.%d", &ipp, &page)
+			qb := verifC07Get(a.onConfigPathsList, "", fmt.Sprintf("?itemsPerPage=%d&page=%d", ipp, page))
+			raw = append(raw, qb)
+			var ql struct {
+				Items []map[string]any `json:"items"`
+			}
+			if err := json.Unmarshal(qb, &ql); err != nil {
+				return "list-not-json"
+			}
+			var is []string
+			for _, it := range ql.Items {
+				n, _ := it["name"].(string)
+				is = append(is, verifutil.HexS(n)+":"+verifC07Field(it, "publishPass")+"/"+verifC07Field(it, "readPass"))
+			}
+			if len(is) == 0 {
+				qs = append(qs, q+"=-")
+			} else {
+				qs = append(qs, q+"="+strings.Join(is, ","))
+			}
+		}
+		// … and the default page size (100)
+		db2 := verifC07Get(a.onConfigPathsList, "", "")
+		raw = append(raw, db2)
+
 		var ps []string
 		for _, n := range verifC07SortedNames(c.Paths) {
 			pb := verifC07Get(a.onConfigPathsGet, n, "")
@@ -496,8 +564,8 @@ func verifC07Exec(op string) string {
 			}
 			return strings.Join(xs, ",")
 		}
-		return fmt.Sprintf("G=%s D=%s/%s L=%s P=%s leaks=%d pure=%d", join(us), verifC07Field(d, "publishPass"), verifC07Field(d, "readPass"),
-			join(ls), join(ps), leaks, pure)
+		return fmt.Sprintf("G=%s D=%s/%s L=%s P=%s Q=%s leaks=%d pure=%d", join(us), verifC07Field(d, "publishPass"), verifC07Field(d, "readPass"),
+			join(ls), join(ps), strings.Join(qs, ";"), leaks, pure)
 
 	case "dump":
 		req, err := verifC07BuildReq(f)
@@ -703,9 +771,14 @@ func verifC07BuildReq(f []string) (*http.Request, error) {
 func verifC07Gen(r *verifutil.Rand, i int, thorough bool) []string {
 	ops := []string{verifC07ResetLine()}
 	if i%2 == 0 {
+		if thorough && i%20 == 0 {
+			seed := r.U64() >> 1
+			cols, _ := verifC07Secrets(verifC07Load(seed, true))
+			return append(ops, fmt.Sprintf("cfgbig %d %s", seed, cols))
+		}
 		for j := 0; j < 3; j++ {
 			seed := r.U64() >> 1
-			cols, _ := verifC07Secrets(verifC07Load(seed))
+			cols, _ := verifC07Secrets(verifC07Load(seed, false))
 			ops = append(ops, fmt.Sprintf("cfg %d %s", seed, cols))
 		}
 		return ops
@@ -721,16 +794,16 @@ func verifC07Gen(r *verifutil.Rand, i int, thorough bool) []string {
 func TestVerifC07(t *testing.T) {
 	gin.SetMode(gin.ReleaseMode)
 	verifutil.Main(t, &verifutil.Harness{
-		ID: "C07", Exec: verifC07Exec, Gen: verifC07Gen, Quick: 300, Thorough: 8000,
+		ID: "C07", Exec: verifC07Exec, Gen: verifC07Gen, Quick: 200, Thorough: 8000,
 		Class: func(op, impl string) string {
 			f := strings.Fields(op)
 			switch f[0] {
-			case "cfg":
+			case "cfg", "cfgbig":
 				k := "no-secrets"
 				if strings.Contains(impl, "3c72656461637465643e") {
 					k = "redacted"
 				}
-				return "cfg/" + k
+				return f[0] + "/" + k
 			case "dump":
 				k := "no-secret-header"
 				if f[len(f)-1] != "-" {
